@@ -1,6 +1,8 @@
 package rules
 
 import (
+	"golang.org/x/tools/go/ssa"
+
 	"p2pverif/core"
 )
 
@@ -31,6 +33,41 @@ func c06(r *core.Report) {
 	ts.checkSendCounter("C06-SEND-COUNTER")
 	r.Rule("C06-COUNTER-NO-RESET", "the outbound counter never moves back once it is in the post-handshake range", 10)
 	ts.checkCounterNoReset("C06-COUNTER-NO-RESET")
+	// ---- C06-OFFERED-FIRST (channel level): recovery from a lost RespHello/RespDone works because a
+	// retransmitted handshake message is handed to the existing sessions, which answer it again with
+	// their cached message; the channel must therefore offer every incoming message to its sessions
+	// before it may decide "nothing to do": every return of the Deliver routine lies after (is dominated
+	// by) the loop that calls Session.Deliver
+	r.Rule("C06-OFFERED-FIRST", "Channel.Deliver offers every incoming message to the existing sessions before any other disposition", 1)
+	if cs := resolveChan(r); cs != nil && cs.deliverLit != nil && cs.sessDeliver != nil {
+		p := r.P
+		lit := cs.deliverLit
+		var header *ssa.BasicBlock
+		for _, ci := range core.CallsToFn(lit, cs.sessDeliver) {
+			// innermost loop header that dominates the call and is reachable from it
+			for b := ci.Block(); b != nil; b = b.Idom() {
+				isHeader := false
+				for _, pr := range b.Preds {
+					if b.Dominates(pr) {
+						isHeader = true
+					}
+				}
+				if isHeader {
+					header = b
+					break
+				}
+			}
+		}
+		okAll := header != nil
+		where := ""
+		for _, ret := range core.Returns(lit) {
+			if header != nil && !header.Dominates(ret.Block()) {
+				okAll = false
+				where = p.Pos(ret.Pos())
+			}
+		}
+		r.Check(okAll, "C06-OFFERED-FIRST", core.FnName(lit), p.Pos(lit.Pos()), "every return is dominated by the loop that delivers the message to the sessions", "the routine can return (at "+where+") before the message was offered to the existing sessions: a retransmitted InitHello or InitDone is swallowed, the session never re-sends its cached RespHello/RespDone, and after one lost reply the handshake never completes")
+	}
 	r.Rule("C06-PAIR-CLOSURE", "two honest sessions under arbitrary delivery of their genuine messages: no panic, one round from ready", 1)
 	ts.checkPairClosure("C06-PAIR-CLOSURE")
 }
